@@ -119,6 +119,24 @@ type Plan struct {
 	// ForceBasic makes the model answer in basic mode even if it remembers the cited exchange
 	// (a conformant server may always do so).
 	ForceBasic bool
+	// Snap makes the model's clock land on a chosen NTP fraction at one instant of the exchange (a server
+	// whose clock happens to read a whole second, or one tick before or after it): the model's offset
+	// is moved by less than a second so that the receive ("rx"), the transmit ("tx") or both timestamps
+	// ("both": the server claims zero processing time) carry exactly the fraction SnapFrac. The
+	// effective offset is recorded in Exchange.Theta.
+	Snap     string
+	SnapFrac uint32
+}
+
+// snap returns the NTP timestamp with fraction frac in the second that the model clock (t+theta) is in,
+// and the offset theta' for which the model clock reads exactly that timestamp at t.
+func snap(t time.Time, theta time.Duration, frac uint32) (ntp.Time64, time.Duration) {
+	sec := t.Add(theta).Unix()
+	ns := int64((uint64(frac)*1e9 + 1<<32 - 1) >> 32) // smallest nanosecond count not below the fraction
+	if ns > 999999999 {
+		ns = 999999999
+	}
+	return ntp.Time64{Seconds: uint32(sec + 2208988800), Fraction: frac}, time.Unix(sec, ns).Sub(t)
 }
 
 type Server struct {
@@ -247,8 +265,10 @@ func (s *Server) loop() {
 		resp.Poll = ex.Req.Poll
 		resp.Precision = -25
 		resp.ReferenceID = 0x4d4f444c // "MODL"
-		ex.Rx64 = ntp.Time64FromTime(r.Add(plan.Theta))
-		resp.ReceiveTime = ex.Rx64
+		theta := plan.Theta
+		if plan.Snap == "rx" || plan.Snap == "both" {
+			ex.Rx64, theta = snap(r, theta, plan.SnapFrac)
+		}
 		s.mu.Lock()
 		cited := s.byRx[client][ex.Req.OriginTime]
 		s.mu.Unlock()
@@ -261,7 +281,22 @@ func (s *Server) loop() {
 			resp.OriginTime = ex.Req.TransmitTime
 		}
 		ex.S = Now()
-		ex.SentTx64 = ntp.Time64FromTime(ex.S.Add(plan.Theta))
+		switch plan.Snap {
+		case "rx":
+			ex.SentTx64 = ntp.Time64FromTime(ex.S.Add(theta))
+		case "both":
+			ex.SentTx64 = ex.Rx64
+		case "tx":
+			ex.SentTx64, theta = snap(ex.S, theta, plan.SnapFrac)
+			ex.Rx64 = ntp.Time64FromTime(r.Add(theta))
+		default:
+			ex.Rx64 = ntp.Time64FromTime(r.Add(theta))
+			ex.SentTx64 = ntp.Time64FromTime(ex.S.Add(theta))
+		}
+		resp.ReceiveTime = ex.Rx64
+		s.mu.Lock()
+		ex.Theta = theta
+		s.mu.Unlock()
 		if !ex.Interleaved {
 			resp.TransmitTime = ex.SentTx64
 		}
